@@ -710,8 +710,11 @@ def main():
             for i, kw in enumerate(OPTION_CASES.get(name, [])):
                 tag = name + "(" + ",".join(f"{k}={v}" for k, v in kw.items()) + ")"
                 log(f"{tag}: start")
-                r = run_env(name, ENVS[name], max(10, a.steps // 2), 1, a.seed + 1 + i, lerax_kwargs=kw, gym_kwargs=kw, tag=tag, native=False,
-                            post_rne=res["envs"][name].get("post_rne"))
+                # an option that names the contact forces may change whether lerax's transition() fills them: probe that variant itself
+                # (one run of its real transition()); the other variants reuse the finding of the default constructor
+                own_probe = (not a.no_native) and name in CONTACT_REWARD_KEY and any("cfrc" in k for k in kw)
+                r = run_env(name, ENVS[name], max(10, a.steps // 2), 1, a.seed + 1 + i, lerax_kwargs=kw, gym_kwargs=kw, tag=tag, native=own_probe,
+                            post_rne=None if own_probe else res["envs"][name].get("post_rne"))
                 res["envs"][tag] = r
                 bad = [f"{c['phase']}:{c['name']}" for c in r["components"] if not c["ok"]]
                 log(f"{tag}: wall {r['wall_s']}s error={bool(r['error'])} failing={bad}")
